@@ -22,13 +22,14 @@ PASSES = {
         "fragment_spread_inlining (frag_inline; idempotence once no spread is left -- refuted on fragment cycles)",
         "field_deduplication (dedup)",
         "directive_include_skip (include_skip; exec preserved when the pass reads the conditions like the executor and "
-        "empties no selection set -- strict equality refuted when the __internal_typename placeholder is inserted; idempotent)",
+        "empties no selection set -- strict equality refuted when the __internal_typename placeholder is inserted; "
+        "idempotent on every document since the walker ranges over a copy of the directive refs)",
         "fragment_definition_removal (remove_frag_defs; exec preserved when the operations are spread-free; idempotent)",
         "composition norm_proved = dedup . remove_frag_defs . self_alias . frag_inline . include_skip (c03_norm_preserves_exec_partial)",
     ],
     "modelled, correspondence only (corr:C03/<pass> on Go's own intermediate trees + corr:C03/composition)": [
         "inline_selections_from_inline_fragments (inline_sel)",
-        "inline_fragment_selection_merging (merge_sel; working tree at a156714: arguments are compared)",
+        "inline_fragment_selection_merging (merge_sel; arguments are compared, by name)",
     ],
     "not modelled (semantic differential only)": [
         "variables_extraction", "variables_default_value_extraction", "inject_input_default_values",
@@ -62,18 +63,13 @@ def classify(case, detail):
         return "nested-variable-in-extracted-literal"
     # (the keys list-coercion-skipped-when-operation-not-first and default-value-nested-list-not-coerced
     #  were repaired in /repo -- work/c03_fix_*.patch; they are no longer mapped, a regression is a VIOLATION)
-    # a directive that follows a dropped @skip/@include (with at least two directives after the dropped
-    # one) is not visited by the first stage: the excluded node survives until the second normalisation,
-    # which has no unused-variable removal
-    if "three_directives" in fl and (clause == "valid_preserved/final" or clause.startswith("idempotent")) \
-            and "but never used" in detail:
-        return "directive-after-dropped-directive-not-visited"
+    # (directive-after-dropped-directive-not-visited was repaired in /repo -- work/c03_fix_*.patch: the walker ranges
+    #  over a copy of the directive refs; no longer mapped, a regression is a VIOLATION)
     if clause == "canonical":
         m = re.search(r' A="(.*)" B="(.*)" varsA=(.*) varsB=(.*) variant=', detail)
         if m and m.group(1) != m.group(2):
             a, b = m.group(1), m.group(2)
-            if m.group(3) == m.group(4) and "__internal_typename" in (a + b) and _strip_placeholder(a) == _strip_placeholder(b):
-                return "placeholder-left-after-fragment-inlining"
+            # (placeholder-left-after-fragment-inlining was repaired in /repo -- work/c03_fix_*.patch; no longer mapped)
             # same selections, only the nesting of (non-inlinable) abstract-type fragments differs (and with
             # it the order in which the variables are met, hence their canonical names)
             anon = lambda t: re.sub(r'\$\w+', '$', t)
